@@ -67,6 +67,8 @@ def main():
     if res.get("applies"):
         assert sh("git -C /repo status --porcelain --untracked-files=no")[1].strip() == "", "/repo not clean"
         sh(f"git -C /repo apply {patch}")
+        evf = os.path.join(VERIF, "evidence", prop + ".json")
+        ev_saved = open(evf).read() if os.path.exists(evf) else None
         try:
             t0 = time.time()
             rc, out = sh(f"cd {VERIF} && ./check {prop} --tier quick")
@@ -77,6 +79,8 @@ def main():
         finally:
             sh("git -C /repo checkout -- .")
             sh(f"cd {VERIF} && python3 lib/regen_all.py")
+            if ev_saved is not None:      # the evidence of a run against a mutated tree is not evidence
+                open(evf, "w").write(ev_saved)
     dst = os.path.join(VERIF, "seeded", name)
     os.makedirs(dst, exist_ok=True)
     shutil.copy(patch, os.path.join(dst, "patch.diff"))
